@@ -31,10 +31,15 @@ META = dict(
 CONSTS = {
     # tier: cm = (check cfg, gen cfg, declared names), items likewise, dv = DtdValidity configs
     "quick": dict(cm=("ContentModel.quick.cfg", "ContentModelGen.quick.cfg", 3),
-                  items=("ContentModelItems.quick.cfg", "ContentModelGenItems.quick.cfg", 2)),
+                  items=("ContentModelItems.quick.cfg", "ContentModelGenItems.quick.cfg", 2),
+                  dv=[("attr", "DtdValidity.attr.quick.cfg", "DtdValidityGen.attr.quick.cfg"),
+                      ("idref", "DtdValidity.idref.quick.cfg", "DtdValidityGen.idref.quick.cfg"),
+                      ("root", "DtdValidity.root.quick.cfg", "DtdValidityGen.root.quick.cfg")]),
     "thorough": dict(cm=("ContentModel.thorough.cfg", "ContentModelGen.thorough.cfg", 3),
                      items=("ContentModelItems.thorough.cfg", "ContentModelGenItems.thorough.cfg", 2),
-                     deep=("ContentModelGenDeep.thorough.cfg", 2)),
+                     dv=[("attr", "DtdValidity.attr.thorough.cfg", "DtdValidityGen.attr.thorough.cfg"),
+                         ("idref", "DtdValidity.idref.thorough.cfg", "DtdValidityGen.idref.thorough.cfg"),
+                         ("root", "DtdValidity.root.quick.cfg", "DtdValidityGen.root.quick.cfg")]),
 }
 
 NUM_KEYS = ("specs", "cases", "parses", "direct_calls", "expect_valid", "expect_invalid", "ok_valid", "ok_invalid", "mismatches",
@@ -113,28 +118,42 @@ def run(out, tier):
     total_cases = total_parses = nontrivial = 0
     samples = []
 
-    # 1. the specifications satisfy the listed property (operational verdict = declarative validity)
-    #    (action coverage is measured on the items config, which takes every action; -coverage triples the cost of the big one)
-    _spec_check(cov, "ContentModel", "ContentModel", k["cm"][0], coverage=False)
-    _spec_check(cov, "ContentModelItems", "ContentModel", k["items"][0])
+    # Stages, cheapest first. Each stage: (1) TLC checks that the specification's operational layer satisfies the declarative one
+    # for the stage's constants (model failure = exit 2), (2) binder T: the generator's cases are replayed on the real parsers.
+    # VERIF_FAIL_FAST=1 (used when demonstrating mutants) stops after the first stage with a disagreement that is not a known finding.
+    known = C.load_known()
+    fail_fast = os.environ.get("VERIF_FAIL_FAST") == "1"
 
-    # 2. T fast path: every content model x every child sequence
-    for key, (chk, gen, nd) in (("cm", k["cm"]), ("items", k["items"])):
-        rg, s, p = _pipe(out, "ContentModelGen", gen, ["cm", str(nd)], exe)
-        cov["T_" + key] = dict(_slim(s), generator=rg.summary(), gen_cfg=gen)
+    def unmatched():
+        return [d for d in out.disagreements if C.match_known("C07", d["cls"], known) is None]
+
+    def tally(key, s, rg, gen, p, sample):
+        nonlocal total_cases, total_parses, nontrivial
+        cov[key] = dict(_slim(s), generator=rg.summary(), gen_cfg=gen)
         total_cases += s.get("cases", 0)
         total_parses += s.get("parses", 0) + s.get("direct_calls", 0)
         nontrivial += s.get("cases", 0)
-        if p.samples:
-            v = C.decode_tlc_json(p.samples[0])
-            samples.append(dict(content_spec=v[0], verdicts=v[1][:12]))
-    if "deep" in k:
-        gen, nd = k["deep"]
-        rg, s, p = _pipe(out, "ContentModelGen", gen, ["cm", str(nd)], exe)
-        cov["T_deep"] = dict(_slim(s), generator=rg.summary(), gen_cfg=gen)
-        total_cases += s.get("cases", 0)
-        total_parses += s.get("parses", 0) + s.get("direct_calls", 0)
-        nontrivial += s.get("cases", 0)
+        if sample and p.samples:
+            samples.append(sample(C.decode_tlc_json(p.samples[0])))
+
+    stages = []
+    for fam, chk, gen in sorted(k["dv"], key=lambda x: ("root", "idref", "attr").index(x[0])):
+        stages.append(("dv_" + fam, "DtdValidity", chk, "DtdValidityGen", gen, ["dv"], dict(root=1, idref=1, attr=2)[fam], fam != "attr",
+                       (lambda v: dict(scenario=v[0], documents=v[1][:3])) if fam != "idref" else None))
+    stages.insert(2, ("items", "ContentModel", k["items"][0], "ContentModelGen", k["items"][1], ["cm", str(k["items"][2])], 2, True,
+                      lambda v: dict(content_spec=v[0], verdicts=v[1][:12])))
+    stages.insert(3, ("cm", "ContentModel", k["cm"][0], "ContentModelGen", k["cm"][1], ["cm", str(k["cm"][2])], 4, False,
+                      lambda v: dict(content_spec=v[0], verdicts=v[1][:12])))
+    cov["stages_run"] = []
+    for key, module, chk, genmod, gen, hargs, shards, with_cov, sample in stages:
+        # -coverage triples the cost of the two big configs; their actions are the same as those of the small configs of the same module
+        _spec_check(cov, module + ":" + key, module, chk, coverage=with_cov)
+        rg, s, p = _pipe(out, genmod, gen, hargs, exe, shards=shards)
+        tally("T_" + key, s, rg, gen, p, sample)
+        cov["stages_run"].append(key)
+        if fail_fast and unmatched():
+            C.log("VERIF_FAIL_FAST: stopping after stage %s (%d disagreements)" % (key, len(unmatched())))
+            break
 
     cov["traces_validated_against_impl"] = total_cases
     cov["evaluations"] = total_parses
@@ -144,8 +163,10 @@ def run(out, tier):
     cov["rule"] = ("T: TLC enumerates every content spec within the bounds of the generator configs and, for each, every item sequence up to "
                    "MaxLen with the specification's verdict (distinct by construction: one (spec, sequence) pair once); each pair is one case; "
                    "evaluations = parses (5 parser configurations, empty element as <r/> and <r></r>, two item renderings) + direct "
-                   "validateContent calls; every case is non-trivial in that its verdict is compared")
-    out.assumptions += ["constants of spec/%s, spec/%s" % (k["cm"][1], k["items"][1]),
+                   "validateContent calls; DtdValidity: every (scenario, document) of the three families once, parsed by the 5 configurations with validation "
+                   "on and off; every case is non-trivial in that its verdict (and kinds, attribute lists) is compared")
+    out.assumptions += ["constants of spec/%s, spec/%s, %s" % (k["cm"][1], k["items"][1], ", ".join("spec/" + g for _, _, g in k["dv"])),
+                        "constraint kinds are compared one way (every violated kind has >= 1 error of its codes); the document-level verdict both ways",
                         "renderers of harness/dtd_harness.cpp realise the abstract DTD/document",
                         "non-deterministic content models: only the language verdict is compared (XML 1.0 makes determinism a compatibility rule)"]
 
